@@ -147,10 +147,31 @@ class Pool:
             if ok(t):
                 self.texts.append(t)
                 self.kinds.append("valid")
+        # a family of very long texts (> 64 Ki or > 128 Ki characters) that differ only near the end: a valid one,
+        # a valid one with another tree, and (below, among the broken ones) one with a syntax error near the end
+        n = rng.choice([65600, 131200, 196700])
+        kind = rng.choice(["comment", "linecomments", "string"])
+        pad = "/* " + "x" * n + " */\n" if kind == "comment" else ("// " + "y" * 76 + "\n") * (n // 80 + 1) if kind == "linecomments" else ""
+        tail = 'model Long%d\n  Real x "%s";\n  parameter Real p = %s;\nequation\n  x = p;\nend Long%d;\n'
+        self.long_texts = [pad + tail % (n, "s" * n if kind == "string" else "d", v, n) for v in ("1", "2")]
+        self.long_broken = pad + (tail % (n, "s" * n if kind == "string" else "d", "1", n)).replace("x = p;", "x = = p;")
+        fam = []
+        for t in self.long_texts:
+            if ok(t):
+                fam.append(len(self.texts))
+                self.texts.append(t)
+                self.kinds.append("long:%s:%d" % (kind, n))
         for t in extra:
             self.texts.append(t)
             self.kinds.append("file")
         self.nvalid = len(self.texts)
+        if a01.syntax_errors(self.long_broken) > 0:
+            fam.append(len(self.texts))
+            self.texts.append(self.long_broken)
+            self.kinds.append("broken:long-tail")
+            nbroken += 1
+        if len(fam) > 1:
+            self.families.append(fam)
         tries = 0
         while len(self.texts) < self.nvalid + nbroken and tries < 50:
             tries += 1
@@ -226,13 +247,28 @@ class Pool:
 
 # ---- the real side -------------------------------------------------------------------------
 class Real:
-    def __init__(self, scratch, pool):
+    def __init__(self, scratch, pool, spelling="canonical"):
         from pymoca import parser
         import pymoca
         self.parser, self.pymoca = parser, pymoca
         self.pool = pool
-        self.dir = Path(tempfile.mkdtemp(prefix="c01-", dir=scratch))
+        self.dir = Path(tempfile.mkdtemp(prefix="c01-", dir=scratch)).resolve()
         self.path = self.dir / DB
+        # how the caller spells the cache folder: the canonical absolute path, a relative path, a path through a
+        # symbolic link, or one with `..` — all the same folder
+        self.link = None
+        if spelling == "relative":
+            self.folder_arg = Path(os.path.relpath(self.dir))
+        elif spelling == "symlink":
+            self.link = self.dir.parent / (self.dir.name + "-link")
+            os.symlink(self.dir, self.link)
+            self.folder_arg = self.link
+        elif spelling == "dotdot":
+            self.folder_arg = self.dir / ".." / self.dir.name
+        elif spelling == "canonical":
+            self.folder_arg = self.dir
+        else:
+            raise HarnessError("unknown folder spelling %r" % spelling)
         self.clock = a01.Clock(T0 * 1000)
         self.saved = (parser.time, pymoca.__version__)
         parser.time = self.clock
@@ -244,6 +280,8 @@ class Real:
     def close(self):
         self.parser.time, self.pymoca.__version__ = self.saved
         self.reload()
+        if self.link is not None and os.path.islink(self.link):
+            os.unlink(self.link)
         shutil.rmtree(self.dir, ignore_errors=True)
 
     def reload(self):
@@ -251,7 +289,14 @@ class Real:
             del self.parser.parse.initialized_dbs
 
     def initialized(self):
-        return self.path in getattr(self.parser.parse, "initialized_dbs", ())
+        # (whatever spelling or key the implementation registers: some registered path is this database)
+        for q in getattr(self.parser.parse, "initialized_dbs", ()):
+            try:
+                if Path(q).resolve() == self.path:
+                    return True
+            except OSError:
+                pass
+        return False
 
     def now_us(self):
         return self.clock.now // 1000
@@ -500,7 +545,7 @@ class Real:
     def parse(self, op):
         _, x, days, upd, bypass = op
         try:
-            t = self.parser.parse(self.pool.texts[x], model_cache_folder=self.dir, cache_expiration_days=days,
+            t = self.parser.parse(self.pool.texts[x], model_cache_folder=self.folder_arg, cache_expiration_days=days,
                                   always_update_last_hit=bool(upd), bypass_cache=bool(bypass))
         except sqlite3.DatabaseError as e:
             return {"raised": "db"}, "%s: %s" % (type(e).__name__, e)
@@ -601,7 +646,7 @@ def check_history(ctx, pool, ops, drv, cfg, case_extra=None):
     case = {"texts": pool.texts, "ops": ops}
     if case_extra:
         case.update(case_extra)
-    real = Real(ctx.scratch, pool)
+    real = Real(ctx.scratch, pool, (case_extra or {}).get("folder", "canonical"))
     steps = []
     hit = False
     try:
@@ -701,6 +746,8 @@ def gen_history(rng, pool, maxlen, guarded, f3=False):
     hot = [rng.randrange(ntext) for _ in range(3)]   # texts parsed again and again (hits)
     if pool.families and rng.random() < 0.6:
         hot = list(rng.choice(pool.families))        # near-identical texts in one history
+        if rng.random() < 0.25:
+            hot = list(pool.families[-1])            # (the family of very long texts, when there is one)
     tr = Tracker(recover=False)
     if rng.random() < 0.3:
         ops.append(["setinc", rng.choice([1, 7, 1000])])
@@ -792,7 +839,9 @@ def _run(ctx):
         guarded = ctx.rng.random() < 0.6
         f3 = ctx.rng.random() < 0.12       # stream of the open finding C01-F3 (insert-rejecting table while initialised)
         ops = gen_history(ctx.rng, pool, maxlen, guarded and not f3, f3)
-        hit = check_history(ctx, pool, ops, drv, cfg)
+        spelling = ctx.rng.choice(["canonical", "canonical", "relative", "symlink", "dotdot"])
+        hit = check_history(ctx, pool, ops, drv, cfg, {"folder": spelling})
+        ctx.count("folder-" + spelling)
         ctx.case({"ops": ops}, nontrivial=bool(hit) and faulty(ops))
         ctx.count("stream-f3" if f3 else "stream-guarded" if guarded else "stream-unguarded")
         ctx.count("len-%02d" % (10 * (len(ops) // 10)))
@@ -808,7 +857,7 @@ def search(ctx):
         n = 0
         while ctx.time_left() > 0 and not ctx.violations and n < 4000:
             ops = gen_history(ctx.rng, pool, 60, ctx.rng.random() < 0.5)
-            check_history(ctx, pool, ops, None, None)
+            check_history(ctx, pool, ops, None, None, {"folder": ctx.rng.choice(["canonical", "relative", "symlink", "dotdot"])})
             ctx.count("search-history")
             n += 1
 
@@ -819,7 +868,7 @@ def replay(ctx, payload):
         raise HarnessError("replay file without a case (a broken tie of the Lean build/audit has no input)")
     ops = c["ops"][:c["upto"]] if "upto" in c else c["ops"]
     with a01.Quiet():
-        check_history(ctx, Pool.from_texts(c["texts"]), ops, ctx.driver("drv_c01"), source_cfg())
+        check_history(ctx, Pool.from_texts(c["texts"]), ops, ctx.driver("drv_c01"), source_cfg(), {"folder": c.get("folder", "canonical")})
 
 
 MANIFEST = dict(
